@@ -3,7 +3,7 @@
 PENDING = "not claimed in this revision: the static rules for it are designed (DESIGN.md section 5) but not yet built and validated both ways"
 
 claim("C18", "other",
-      "Decides the structural clauses of the scalar-operator algebra for every operand count and value, from the source: alias identity in the operator table, a dominating non-zero test before every integer division with an error on the zero edge, arity guards before every params[k], type mismatches reach only error returns, fold direction and operator-per-mode tables read from the implementations, safe interface equality. Does not decide numeric results (Go's int64 semantics).",
+      "Decides the structural clauses of the scalar-operator algebra for every operand count and value, from the source: alias identity in the operator table, a dominating non-zero test before every integer division with an error on the zero edge, arity guards before every params[k], type mismatches reach only error returns, fold direction and operator-per-mode tables read from the implementations, safe interface equality. Does not decide numeric results (Go's int64 semantics). Added: R-BOOLARITY — for and/or the arity error is enforced where the node is built, because the engine can decide them without calling the operator.",
       "table extraction + SSA gate/dominance + forward must-dataflow on len(params) + canonical term recovery",
       "DESIGN.md 5/C18")
 
@@ -18,32 +18,32 @@ claim("C08", "proof",
       "DESIGN.md 5/C08")
 
 claim("C01", "other",
-      "Decides the clause 'the error is the very one the fetcher or operator returned' completely (value-origin analysis of every error reaching a return of the evaluation entry points), plus structural necessary conditions of the semantics: errors are tested before values are used, name resolution order const > variable > undefined variable, node-kind invariants at every writer, every kind has a handler in every dispatch, flag bit groups disjoint, and/or polarity tables agree for every alias. Does not decide the value semantics of the stack machine (jump/stack tables are run-time data). Added: per arm of Eval's main loop the pushed value is exactly the literal / the fetch of that node / result #0 of the node's own operator, and the operand vector is the popped stack region in source order (R-STEPRES, R-STEPARGS). Shape of the compile-time tables: stack-height recurrence uses one adjusted predecessor in every arm and the evaluator's own per-kind deltas (R-STACKREC); short-circuit table stores are gated only by the parent and the position, never by the node's own kind, climbing is justified by (ancestor.flag & flag) == flag, loop directions (R-SCFLAGS, R-SCCLIMB); every site agrees that a fast operator is followed by two inlined operands (R-FASTLAYOUT); marker comparisons use the stored dynamic type (R-KWTYPE). Still not decided: the contents of scIdx for every tree shape, hence value equality for all programs.",
+      "Decides the clause 'the error is the very one the fetcher or operator returned' completely (value-origin analysis of every error reaching a return of the evaluation entry points), plus structural necessary conditions of the semantics: errors are tested before values are used, name resolution order const > variable > undefined variable, node-kind invariants at every writer, every kind has a handler in every dispatch, flag bit groups disjoint, and/or polarity tables agree for every alias. Does not decide the value semantics of the stack machine (jump/stack tables are run-time data). Added: per arm of Eval's main loop the pushed value is exactly the literal / the fetch of that node / result #0 of the node's own operator, and the operand vector is the popped stack region in source order (R-STEPRES, R-STEPARGS). Shape of the compile-time tables: stack-height recurrence uses one adjusted predecessor in every arm and the evaluator's own per-kind deltas (R-STACKREC); short-circuit table stores are gated only by the parent and the position, never by the node's own kind, climbing is justified by (ancestor.flag & flag) == flag, loop directions (R-SCFLAGS, R-SCCLIMB); every site agrees that a fast operator is followed by two inlined operands (R-FASTLAYOUT); marker comparisons use the stored dynamic type (R-KWTYPE). Still not decided: the contents of scIdx for every tree shape, hence value equality for all programs. Also: an and/or node is never built with fewer than two operands (R-BOOLARITY; the tree as found violated it: D14, repaired).",
       "SSA value-origin analysis + gate/dominance rules + writer census of node fields + table extraction",
       "DESIGN.md 5/C01")
 
 claim("C03", "other",
-      "Decides where the observable effects of evaluation can occur: census of every VariableFetcher.Get and operator call in Eval with the arm (node kind) that dominates it, the node it addresses relative to the single loop counter, exclusivity and at-most-counts per step, operand order into the fast operator, the gates of the cond jump and of the short-circuit jump, and the if/fi closures. Does not decide that the compile-time jump targets skip exactly the decided operands. Added: per arm of Eval's main loop the pushed value is exactly the literal / the fetch of that node / result #0 of the node's own operator, and the operand vector is the popped stack region in source order (R-STEPRES, R-STEPARGS). Every child of an and/or node gets polarity flag and jump target whatever its own kind (R-SCFLAGS, R-SCCLIMB, R-FASTLAYOUT, R-KWTYPE).",
+      "Decides where the observable effects of evaluation can occur: census of every VariableFetcher.Get and operator call in Eval with the arm (node kind) that dominates it, the node it addresses relative to the single loop counter, exclusivity and at-most-counts per step, operand order into the fast operator, the gates of the cond jump and of the short-circuit jump, and the if/fi closures. Does not decide that the compile-time jump targets skip exactly the decided operands. Added: per arm of Eval's main loop the pushed value is exactly the literal / the fetch of that node / result #0 of the node's own operator, and the operand vector is the popped stack region in source order (R-STEPRES, R-STEPARGS). Every child of an and/or node gets polarity flag and jump target whatever its own kind (R-SCFLAGS, R-SCCLIMB, R-FASTLAYOUT, R-KWTYPE). R-PAIRBOOL (every alias of and/or is recognised by the short-circuit predicates) is run here too.",
       "call-site census on SSA with edge-dominance facts over node-kind tests + loop-shape recovery",
       "DESIGN.md 5/C03")
 
 claim("C04", "other",
-      "Decides the three gates a definite TryEval answer rests on: operators never see a DNE operand (the only operator application in TryEval's own code is behind contains(params, DNE) == false, plus the cond arm), shortcut polarity of the operator proxy, fetch only under Cached == true for the same keys; and that the polarity tables used by the climbing loop agree with the compiler's. Does not decide the upward propagation itself. Added: per arm of TryEval's main loop the pushed value is exactly the literal / fetchVariableValueProxy(curt) / executeOperatorProxy(curt, operands); operands are built as in Eval, fast-arm slot k is getNodeValueProxy(nodes[i+1+k]) and nothing else (R-STEPRES, R-STEPARGS).",
+      "Decides the three gates a definite TryEval answer rests on: operators never see a DNE operand (the only operator application in TryEval's own code is behind contains(params, DNE) == false, plus the cond arm), shortcut polarity of the operator proxy, fetch only under Cached == true for the same keys; and that the polarity tables used by the climbing loop agree with the compiler's. Does not decide the upward propagation itself. Added: per arm of TryEval's main loop the pushed value is exactly the literal / fetchVariableValueProxy(curt) / executeOperatorProxy(curt, operands); operands are built as in Eval, fast-arm slot k is getNodeValueProxy(nodes[i+1+k]) and nothing else (R-STEPRES, R-STEPARGS). Added: R-CACHEDGET — for every fetcher of the package Cached == true excludes every error condition of Get.",
       "call-site census + edge-dominance facts (with phi-&& expansion) + table extraction",
       "DESIGN.md 5/C04")
 
 claim("C05", "other",
-      "Decides the ordering and 'DNE is not an error' clauses: shortcuts are reached independently of DNE poisoning, the not-cached edge yields (DNE, nil), TryEvalBool maps DNE to ErrDNE before asserting bool, the fast-operator arm goes through both proxies. Does not decide Kleene completeness of the propagation. Added: per arm of TryEval's main loop the pushed value is exactly the literal / fetchVariableValueProxy(curt) / executeOperatorProxy(curt, operands); operands are built as in Eval, fast-arm slot k is getNodeValueProxy(nodes[i+1+k]) and nothing else (R-STEPRES, R-STEPARGS).",
+      "Decides the ordering and 'DNE is not an error' clauses: shortcuts are reached independently of DNE poisoning, the not-cached edge yields (DNE, nil), TryEvalBool maps DNE to ErrDNE before asserting bool, the fast-operator arm goes through both proxies. Does not decide Kleene completeness of the propagation. Added: per arm of TryEval's main loop the pushed value is exactly the literal / fetchVariableValueProxy(curt) / executeOperatorProxy(curt, operands); operands are built as in Eval, fast-arm slot k is getNodeValueProxy(nodes[i+1+k]) and nothing else (R-STEPRES, R-STEPARGS). Added: R-CACHEDGET — for every fetcher of the package Cached == true excludes every error condition of Get (an unavailable variable never becomes a fetcher error).",
       "edge-dominance facts over the proxy functions + SSA shape rules",
       "DESIGN.md 5/C05")
 
 claim("C10", "other",
-      "Decides who may call an operator at compile time and under which gate (census of dynamic Operator calls in the compile closure, tied to isStatelessOp's answer), what isStatelessOp can approve, that the tree is rewritten only on success or by the gated and/or absorption, that only constant children are folded, and that optimizers have no failure channel. Does not decide that a folded value equals the run-time value.",
+      "Decides who may call an operator at compile time and under which gate (census of dynamic Operator calls in the compile closure, tied to isStatelessOp's answer), what isStatelessOp can approve, that the tree is rewritten only on success or by the gated and/or absorption, that only constant children are folded, and that optimizers have no failure channel. Does not decide that a folded value equals the run-time value. Added: R-OPRESOLVE — the function a fold applies is the function the node runs (parser and folder resolve names in the same order).",
       "call-site census over the VTA compile closure + edge-dominance facts + loop-shape rules + table extraction",
       "DESIGN.md 5/C10")
 
 claim("C16", "other",
-      "Decides the structural core of every sentence: the reordering pass only stores cost and sorts children under isBoolOpNode of the same node (permutation only), the sort is stable, the comparator is strict less on cost of the sorted slice, the cost dataflow is monotone in configured costs (float +, math.Max, phi only) with per-name entries taking precedence, and the and/or predicates cover exactly the aliases of the table. Does not decide NaN costs or concrete numbers.",
+      "Decides the structural core of every sentence: the reordering pass only stores cost and sorts children under isBoolOpNode of the same node (permutation only), the sort is stable, the comparator is strict less on cost of the sorted slice, the cost dataflow is monotone in configured costs (float +, math.Max, phi only) with per-name entries taking precedence, and the and/or predicates cover exactly the aliases of the table. Does not decide NaN costs or concrete numbers. Added: R-COSTALL — the cost of an `if` reads exactly its operand children (not the fi marker) and every other node adds every child's cost.",
       "effect analysis of the reordering closure + SSA dataflow over float operations + comparator shape + table extraction",
       "DESIGN.md 5/C16")
 
@@ -58,12 +58,12 @@ claim("C11", "other",
       "DESIGN.md 5/C11")
 
 claim("C12", "other",
-      "Decides non-interference and payload clauses: every container-typed component of a sent Event is allocated in the sending function and never written after the send (no aliasing of engine buffers), the operator wrapper is a transparent forwarder that reports the call's own result/error, the event arm of Eval/TryEval is a no-op on every loop-carried variable, Dump skips event nodes, and instrumentation is installed only under ReportEvent/Debug. Does not decide the remapped jump indices of event mode. Added: R-EVREMAP — the event-mode node array and parent table are rebuilt entry by entry in step, every appended node records its position in the table keyed by its original index, and the relabelling loop reads the right table under the -1 guards.",
+      "Decides non-interference and payload clauses: every container-typed component of a sent Event is allocated in the sending function and never written after the send (no aliasing of engine buffers), the operator wrapper is a transparent forwarder that reports the call's own result/error, the event arm of Eval/TryEval is a no-op on every loop-carried variable, Dump skips event nodes, and instrumentation is installed only under ReportEvent/Debug. Does not decide the remapped jump indices of event mode. Added: R-EVREMAP — the event-mode node array and parent table are rebuilt entry by entry in step, every appended node records its position in the table keyed by its original index, and the relabelling loop reads the right table under the -1 guards. R-WRAPID also requires the reported arguments to be a copy taken before the operator is applied (D15, repaired).",
       "SSA value-root analysis of send payloads + closure shape rule + phi inspection on the loop latch + edge-dominance facts",
       "DESIGN.md 5/C12")
 
 claim("C13", "other",
-      "Decides the literal-codec clause (Dump escapes iff the lexer unescapes; today neither), that every constant type the parser creates has a printing case in a re-readable form (quotes, parenthesised space-separated lists, base-10 integers), that Dump's selection of `if` children agrees with the compiler's emission order, and that event nodes are skipped. Does not decide equivalence of the recompiled program. Added: R-DUMPVERBATIM (rendered text is never re-indented) and R-EVREMAP (event-mode parent table is an exact relabelling, so Dump rebuilds the same tree in event mode).",
+      "Decides the literal-codec clause (Dump escapes iff the lexer unescapes; today neither), that every constant type the parser creates has a printing case in a re-readable form (quotes, parenthesised space-separated lists, base-10 integers), that Dump's selection of `if` children agrees with the compiler's emission order, and that event nodes are skipped. Does not decide equivalence of the recompiled program. Added: R-DUMPVERBATIM (rendered text is never re-indented) and R-EVREMAP (event-mode parent table is an exact relabelling, so Dump rebuilds the same tree in event mode). Added: R-FMTDATA (format strings of every fmt call are built from constants and integers only; program text is an operand) and R-INTBASE (every integer parse of the lexer/parser reads base 10). Constants of Go types the lexer cannot produce are outside the property's literal domain.",
       "callee census over the lex and Dump closures + type-switch/print-grammar extraction + sibling agreement on child order",
       "DESIGN.md 5/C13")
 
@@ -73,22 +73,22 @@ claim("C14", "other",
       "DESIGN.md 5/C14")
 
 claim("C15", "other",
-      "Decides the operator-table clause (documented precedence levels and arities read from the getInfixOpInfo switch, coverage of every symbolic operator of the operator table, aliases on one level) and the associativity rule (reduction stops only for a strictly tighter operator; comparePrecedence direction; operands popped last to first). Does not decide the shunting-yard algorithm as a whole. Added: R-REDUCEGATE — an operator is built only on the losing edge of the precedence comparison against the arriving token, the matched parenthesis ends the reduction, and an arriving prefix operator reduces nothing (the tree as found violated the last clause: D13, repaired).",
+      "Decides the operator-table clause (documented precedence levels and arities read from the getInfixOpInfo switch, coverage of every symbolic operator of the operator table, aliases on one level) and the associativity rule (reduction stops only for a strictly tighter operator; comparePrecedence direction; operands popped last to first). Does not decide the shunting-yard algorithm as a whole. Added: R-REDUCEGATE — an operator is built only on the losing edge of the precedence comparison against the arriving token, the matched parenthesis ends the reduction, and an arriving prefix operator reduces nothing (the tree as found violated the last clause: D13, repaired). Added: R-OPNAMES — a name is read as an undefined variable only when the operator-node builder's own resolver does not know it.",
       "switch-table extraction from typed syntax + SSA term recovery and loop-exit condition rule",
       "DESIGN.md 5/C15")
 
 claim("C17", "other",
-      "Decides the dispatch clauses by abstract interpretation of in/overlap over operand types: overlap's outcome matrix is symmetric, same-typed lists give a value, mismatches are errors except the empty literal on either side; in's matrix accepts exactly the documented collections; plus structural necessary conditions of the set semantics (true only under element equality / set hit between the two operands, loops over whole operands, false only at loop exit or for the empty literal). Does not decide the value relation nor scan/hash agreement.",
+      "Decides the dispatch clauses by abstract interpretation of in/overlap over operand types: overlap's outcome matrix is symmetric, same-typed lists give a value, mismatches are errors except the empty literal on either side; in's matrix accepts exactly the documented collections; plus structural necessary conditions of the set semantics (true only under element equality / set hit between the two operands, loops over whole operands, false only at loop exit or for the empty literal). Does not decide the value relation nor scan/hash agreement. Added: R-INTBASE — list elements and scalar probes are read with the same base (10).",
       "CFG walk with type tests resolved by assumed operand types + edge-dominance facts + loop-shape rules",
       "DESIGN.md 5/C17")
 
 claim("C19", "other",
-      "Decides constant agreement of the version encoding (one radix, admitted component bound below the radix, admitted length range containing every default, no int64 overflow, positional accumulation, parse failure is an error) and the time-zone clause (time.Parse only, Unix seconds of that parse, error returned), plus which layout each time operator parses with for each arity. Does not decide the order relation over all pairs.",
+      "Decides constant agreement of the version encoding (one radix, admitted component bound below the radix, admitted length range containing every default, no int64 overflow, positional accumulation, parse failure is an error) and the time-zone clause (time.Parse only, Unix seconds of that parse, error returned), plus which layout each time operator parses with for each arity. Does not decide the order relation over all pairs. Added: version components are parsed base 10.",
       "constant and bound extraction from branch facts + callee census + may-analysis of mode/arity sets",
       "DESIGN.md 5/C19")
 
 claim("C20", "other",
-      "Decides the mechanisms the generator's in-line oracle rests on: execOp has the same three-valued decision table as the engine's operator proxy (sibling agreement, shortcuts before poisoning), the generated `if` reports the chosen branch, division operators are chosen only under a correctly maintained no-zero-divisor flag, listed operators exist, and n-ary nodes report execOp of the rendered operator over all children. Does not decide equality with a reference evaluator on every seed.",
+      "Decides the mechanisms the generator's in-line oracle rests on: execOp has the same three-valued decision table as the engine's operator proxy (sibling agreement, shortcuts before poisoning), the generated `if` reports the chosen branch, division operators are chosen only under a correctly maintained no-zero-divisor flag, listed operators exist, and n-ary nodes report execOp of the rendered operator over all children. Does not decide equality with a reference evaluator on every seed. Added: R-GENOPT — generator option closures store into no captured variable (no state between applications).",
       "decision-table extraction by edge-dominance facts (two siblings compared) + phi/flag dataflow rules + constant list extraction",
       "DESIGN.md 5/C20")
 
@@ -98,6 +98,6 @@ claim("C06", "other",
       "DESIGN.md 5/C06")
 
 claim("C02", "other",
-      "C02 as a whole (value equality across 16 optimisation subsets for all programs and inputs) is NOT decided. Decided are structural necessary conditions of it: ReduceNesting only splices same-kind bool children and keeps every operand in order (R-FLATTEN); optimize runs exactly the enabled-or-absent passes (R-OPTGATE); the ;;;; directive parser and the Optimizations option write CompileOptions identically (R-DIREQ, sibling agreement); plus the per-pass conditions shared with C10 (fold only constants through approved stateless operators, only on success), C16 (reordering permutes and/or operands only, stably) and C01 (fast marking only for two-leaf operators). A change that breaks one of these breaks C02; a change that only alters which value a re-derived jump/stack table holds is out of reach.",
+      "C02 as a whole (value equality across 16 optimisation subsets for all programs and inputs) is NOT decided. Decided are structural necessary conditions of it: ReduceNesting only splices same-kind bool children and keeps every operand in order (R-FLATTEN); optimize runs exactly the enabled-or-absent passes (R-OPTGATE); the ;;;; directive parser and the Optimizations option write CompileOptions identically (R-DIREQ, sibling agreement); plus the per-pass conditions shared with C10 (fold only constants through approved stateless operators, only on success), C16 (reordering permutes and/or operands only, stably) and C01 (fast marking only for two-leaf operators). A change that breaks one of these breaks C02; a change that only alters which value a re-derived jump/stack table holds is out of reach. Added: R-OPRESOLVE — the parser consults Config.OperatorMap only when the built-in table has no entry, so the function folded at compile time is the function the node runs.",
       "SSA loop-shape and gate rules on the optimizer passes + sibling agreement on option writers + re-run of the C10/C16/C01 pass rules",
       "DESIGN.md 5/C02")
